@@ -77,12 +77,22 @@ def build(u):
     u.spec("paystate.rs", shared=True)
     u.raw("impl PaymentState {\n")
     imp = h.find("PaymentState", "impl")
-    for f in ["add_htlc", "fail"]:
+    for f in ["new", "add_htlc", "fail"]:
         u.fn(h, h.find_fn_in(imp, f), f"htlc_manager::PaymentState::{f}", stub=True)
     u.raw("}\n")
     u.spec("handle.rs")
     u.impl(h, "HtlcManager", ["check_htlc", "extract_trampoline_info", "trampoline_fee_or_expiry_insufficient"], "htlc_manager")
     u.free_fn(h, "default_response", "htlc_manager")
+    u.fn(h, h.find("payment_lifecycle", "fn"), "htlc_manager::payment_lifecycle", stub=True)
+    # ---- the whole handle_htlc ----
+    u.ghost_callees["m:lock"] = "Tracked(w)"
+    u.ghost_callees["m:fail"] = "Tracked(g)"
+    u.ghost_callees["m:add_htlc"] = "Tracked(g)"
+    u.ghost_callees["m:or_insert_with"] = "Tracked(g)"
+    u.ghost_callees["m:context"] = ("Tracked(g)", r"^receiver")
+    u.impl(h, "HtlcManager", ["handle_htlc"], "htlc_manager")
+    for k in ["m:lock", "m:fail", "m:add_htlc", "m:or_insert_with", "m:context"]:
+        del u.ghost_callees[k]
     # ---- E6 slices of handle_htlc ----
     im = h.find("HtlcManager", "impl")
     hh = h.find_fn_in(im, "handle_htlc")
